@@ -42,19 +42,19 @@ func (*Sorter).less
 immutable DataProcessor: stream
 
 func NewDataProcessor
-  props C05 C19
+  props C05 C19 C01 C03 C07 C08 C09 C10 C12 C15 C17 C20
   ensures the-processor-serves-the-stream-it-was-built-for: fresh(result) && result.stream == stream
 
 // the consumer loop: a buffer swap (expansion) or Stop replaces s.dataChan, so the channel must be read again, under the
 // read lock, in every iteration before a row is taken from it
 func (*DataProcessor).Process
-  props C05 C19
+  props C05 C19 C01 C03 C07 C08 C09 C10 C12 C15 C17 C20
   modifies *
   count reads := RLock
   before processItem the-channel-is-read-again-under-the-lock-before-every-receive: $reads > atloop(1, $reads)
 
 func (*DataProcessor).applyHavingWithCondition
-  props C07
+  props C07 C01 C03 C05 C08 C09 C10 C12 C15 C17 C20
   modifies *
   count tested := Evaluate
   observe cerr := NewExprCondition#1
@@ -64,19 +64,19 @@ func (*DataProcessor).applyHavingWithCondition
   loop 1 invariant len(filteredResults) <= $i && forall(j, 0, len(filteredResults), exists(k, 0, $i, filteredResults[j] == $s[k]))
 
 extern (*Stream).projectGroupColumns
-  props C07
+  props C07 C04 C05 C06 C16 C20
   modifies allmaps
 
 extern (*Stream).applyWindowAnalytic
-  props C07
+  props C07 C05 C06 C12 C13 C14 C15 C16 C19 C20
   modifies allmaps
 
 extern (*DataProcessor).applyDistinct
-  props C07
+  props C07 C01 C03 C05 C08 C09 C10 C12 C15 C17 C20
   modifies allmaps
 
 extern (*DataProcessor).applyHavingFilter
-  props C07
+  props C07 C01 C03 C05 C08 C09 C10 C12 C15 C17 C20
   modifies allmaps
 
 extern (*Stream).applyOrderBy
@@ -84,11 +84,11 @@ extern (*Stream).applyOrderBy
   modifies allmaps
 
 func (*Stream).hasAnalyticFields
-  props C07
+  props C07 C05 C06 C12 C13 C14 C15 C16 C19 C20
   ensures result == (len(s.config.AnalyticFields) > 0)
 
 func (*DataProcessor).processAggregationResults
-  props C07
+  props C07 C01 C03 C05 C08 C09 C10 C12 C15 C17 C20
   modifies *
   observe having := applyHavingFilter
   observe distinct := applyDistinct
@@ -101,15 +101,15 @@ func (*DataProcessor).processAggregationResults
 
 // ---------------------------------------------------------------- C04: function-expression group keys, output naming
 extern (*Stream).stripJoinAlias
-  props C04
+  props C04 C05 C06 C07 C16 C20
   option pure
 
 func (*Stream).groupFieldOutputName
-  props C04
+  props C04 C05 C06 C07 C16 C20
   ensures alias-wins: dom(s.config.SelectAlias, gf) && s.config.SelectAlias[gf] != "" ==> result == s.config.SelectAlias[gf]
 
 func (*Stream).injectGroupKeyExprs
-  props C04 C20
+  props C04 C20 C05 C06 C07 C16
   modifies mapof(data)
   ensures no-function-key-nothing-written: forall(i, 0, len(s.config.GroupFields), !strings.Contains(s.config.GroupFields[i], "(")) ==> mapUnchanged(data)
   atreturn every-function-key-is-attempted: $done1
@@ -162,7 +162,7 @@ func (*tableStore).get
   ensures true
 
 func (*Stream).JoinKeyFields
-  props C16
+  props C16 C05 C06 C12 C13 C14 C15 C19 C20
   ensures the-index-key-is-the-table-side-of-the-on-pairs: forall(k, 0, len(s.config.JoinConfigs), s.config.JoinConfigs[k].Table == table && forall(j, 0, k, s.config.JoinConfigs[j].Table != table) ==> result1 == nil && len(result0) == len(s.config.JoinConfigs[k].OnPairs) && forall(i, 0, len(result0), result0[i] == s.config.JoinConfigs[k].OnPairs[i].TableField))
   ensures a-table-no-join-mentions-is-an-error: forall(k, 0, len(s.config.JoinConfigs), s.config.JoinConfigs[k].Table != table) ==> result1 != nil
   loop 1 invariant forall(j, 0, $i, s.config.JoinConfigs[j].Table != table)
@@ -172,7 +172,7 @@ extern iface.TableSource.Lookup
   props C16
 
 func streamFieldValue
-  props C16
+  props C16 C20
   ensures bare-name-direct-lookup: true
 
 func (*Stream).enrichJoin
@@ -200,7 +200,7 @@ func (*Stream).safeGetDataChan
 
 // every emitted row is counted as input and handed to the overflow strategy exactly once, whatever it contains
 func (*Stream).Emit
-  props C19
+  props C19 C05 C06 C12 C13 C14 C15 C16 C20
   modifies *
   count counted := Inc
   count handed := ProcessData
@@ -252,7 +252,7 @@ func (*BlockingStrategy).ProcessData
   ensures block-without-timeout-never-drops: bs.stream.blockingTimeout <= 0 ==> bs.stream.mInputDropped.val == old(bs.stream.mInputDropped.val)
 
 func (*Stream).Stop
-  props C19
+  props C19 C05 C06 C12 C13 C14 C15 C16 C20
   modifies *
   before Unlock producers-see-nil-after-stop: wheld(s.dataChanMux) ==> s.dataChan == nil
 
@@ -267,16 +267,16 @@ pred hasFuncGroupKey(s) := exists(i, 0, len(s.config.GroupFields), strings.Conta
 pred injects(s) := len(s.config.AnalyticFields) > 0 || len(s.config.WhereAnalyticCalls) > 0 || hasFuncGroupKey(s)
 
 func (*Stream).hasJoin
-  props C20
+  props C20 C16
   ensures result == (len(s.config.JoinConfigs) > 0)
 
 func (*Stream).injectsIntoRow
-  props C20
+  props C20 C05 C06 C12 C13 C14 C15 C16 C19
   ensures result <==> injects(s)
   loop 1 invariant forall(j, 0, $i, !strings.Contains(s.config.GroupFields[j], "("))
 
 func (*Stream).enrichData
-  props C20 C05
+  props C20 C05 C06 C12 C13 C14 C15 C16 C19
   ensures row-is-private-whenever-something-will-be-written-into-it: err == nil && keep && injects(s) ==> fresh(dataMap)
   ensures joined-row-is-a-copy: err == nil && keep && len(s.config.JoinConfigs) > 0 ==> fresh(dataMap)
   ensures errors-drop-the-row: err != nil ==> !keep
@@ -285,18 +285,18 @@ func (*Stream).enrichData
   loop 1 invariant fresh(dataMap) && mapUnchanged(data)
 
 extern (*Stream).ensureAnalytic
-  props C20 C14
+  props C20 C14 C05 C06 C12 C13 C15 C16 C19
   modifies s.analytic
 
 extern (*AnalyticEngine).HasFields
-  props C20 C14
+  props C20 C14 C12
   option pure
 
 extern (*AnalyticEngine).Evaluate
-  props C20 C14
+  props C20 C14 C12
 
 func (*Stream).evalAnalytic
-  props C20 C14
+  props C20 C14 C05 C06 C12 C13 C15 C16 C19
   modifies mapof(dataMap), s.analytic
   ensures nothing-to-inject-nothing-written: len(s.config.AnalyticFields) == 0 && len(s.config.WhereAnalyticCalls) == 0 ==> mapUnchanged(dataMap)
   loop 1 invariant len(s.config.AnalyticFields) == 0 && len(s.config.WhereAnalyticCalls) == 0 ==> mapUnchanged(dataMap)
@@ -304,7 +304,7 @@ func (*Stream).evalAnalytic
   loop 3 invariant len(s.config.AnalyticFields) == 0 && len(s.config.WhereAnalyticCalls) == 0 ==> mapUnchanged(dataMap)
 
 func (*Stream).applyWhereAndAnalytic
-  props C20 C05 C14
+  props C20 C05 C14 C06 C12 C13 C15 C16 C19
   modifies mapof(dataMap), s.analytic
   observe w := Evaluate
   before Evaluate where-sees-this-row: $arg1 == boxof(dataMap, map[string]any)
@@ -317,14 +317,14 @@ pred finfo(s, spec) := s.compiledFieldInfo[spec]
 pred otherKeysKept(result, key) := forallv(k, "", k != key ==> (dom(result, k) <==> old(dom(result, k))) && result[k] == old(result[k]))
 
 extern (*Stream).executeFunction
-  props C05
+  props C05 C04 C06 C07 C16 C20
 
 extern (*Stream).processSingleFieldFallback
-  props C05
+  props C05 C04 C06 C07 C16 C20
   modifies mapof(result)
 
 func (*Stream).processExpressionField
-  props C05 C20 C06
+  props C05 C20 C06 C04 C07 C16
   option assumed_frame
   modifies mapof(result)
   count asked := EvaluateExpression
@@ -339,7 +339,7 @@ pred firstSep(s, i) := 0 <= i && i < len(s) && sepAt(s, i) && forall(j, 0, i, !s
 pred unq(s) := ite(len(s) >= 2 && s[0] == 96 && s[len(s) - 1] == 96, s[1:len(s) - 1], s)
 
 func (*Stream).compileSimpleFieldInfo$1
-  props C05
+  props C05 C04 C06 C07 C16 C20
   option safety
   ensures one-or-two-parts: len(result) == 1 || len(result) == 2
   ensures split-at-the-first-colon-outside-quotes: len(result) == 2 ==> exists(i, 0, len(spec), firstSep(spec, i) && result[0] == spec[:i] && result[1] == spec[i + 1:])
@@ -348,7 +348,7 @@ func (*Stream).compileSimpleFieldInfo$1
   loop 1 decreases len(spec) - i
 
 func (*Stream).compileSimpleFieldInfo
-  props C05
+  props C05 C04 C06 C07 C16 C20
   option safety
   ensures result != nil && fresh(result)
   ensures star-selects-every-column: fieldSpec == "*" ==> result.isSelectAll
@@ -359,7 +359,7 @@ func (*Stream).compileSimpleFieldInfo
   ensures quoted-text-is-a-literal-without-its-quotes: fieldSpec != "*" && result.isStringLiteral ==> len(result.fieldName) >= 2 && result.stringValue == result.fieldName[1:len(result.fieldName) - 1]
 
 func (*Stream).processSimpleField
-  props C05
+  props C05 C04 C06 C07 C16 C20
   requires result != nil && result != dataMap
   modifies mapof(result)
   ensures the-row-is-only-read: mapUnchanged(dataMap)
@@ -371,18 +371,18 @@ func (*Stream).processSimpleField
   loop 1 invariant mapUnchanged(dataMap) && forallv(k, "", ($visited[k] ==> dom(dataMap, k)) && ($visited[k] && !dom(s.config.FieldExpressions, k) ==> dom(result, k) && result[k] == dataMap[k]) && (!($visited[k] && !dom(s.config.FieldExpressions, k)) ==> (dom(result, k) <==> old(dom(result, k))) && result[k] == old(result[k])))
 
 extern (*Stream).projectAnalytic
-  props C05 C20
+  props C05 C20 C06 C12 C13 C14 C15 C16 C19
   modifies mapof(result)
   ensures nothing-analytic-nothing-added: analyticResults == nil ==> mapUnchanged(result)
 
 func (*Stream).hasOmitEmptyAnalytic
-  props C05
+  props C05 C06 C12 C13 C14 C15 C16 C19 C20
   ensures only-analytic-queries-suppress-rows: len(s.config.AnalyticFields) == 0 ==> !result
 
 pred emptyMap(m) := forallv(k, "", !dom(m, k))
 
 func (*Stream).projectDirectRow
-  props C20 C05
+  props C20 C05 C06 C12 C13 C14 C15 C16 C19
   ensures emit ==> result != nil && fresh(result)
   ensures the-row-is-only-read: mapUnchanged(dataMap)
   ensures non-analytic-rows-always-yield-a-result: len(s.config.AnalyticFields) == 0 ==> emit
@@ -395,12 +395,12 @@ func (*Stream).projectDirectRow
   loop 3 invariant result != nil && fresh(result) && mapUnchanged(dataMap) && forallv(k, "", (dom(result, k) <==> $visited[k]) && ($visited[k] ==> result[k] == dataMap[k] && dom(dataMap, k)))
 
 func (*DataProcessor).expandUnnestResults
-  props C05
+  props C05 C01 C03 C07 C08 C09 C10 C12 C15 C17 C20
   modifies *
   ensures without-unnest-the-batch-is-exactly-the-row: !old(dp.stream.hasUnnestFunction) ==> len(result0) == 1 && result0[0] == result
 
 func (*Stream).processDirectDataSync
-  props C20 C05
+  props C20 C05 C06 C12 C13 C14 C15 C16 C19
   modifies *
   observe enriched := enrichData
   observe analytic := applyWhereAndAnalytic
@@ -416,7 +416,7 @@ func (*Stream).processDirectDataSync
   ensures filtered-rows-yield-nothing: !$pass ==> result0 == nil
 
 func (*DataProcessor).processDirectData
-  props C05
+  props C05 C01 C03 C07 C08 C09 C10 C12 C15 C17 C20
   modifies *
   observe enriched := enrichData
   observe analytic := applyWhereAndAnalytic
@@ -431,14 +431,14 @@ func (*DataProcessor).processDirectData
   before callSinksAsync the-sinks-get-the-same-batch-as-the-channel: $arg1 == $batch
 
 func (*DataProcessor).processItem
-  props C20
+  props C20 C01 C03 C05 C07 C08 C09 C10 C12 C15 C17
   modifies *
   before Add callers-row-untouched: mapUnchanged(data)
   before injectGroupKeyExprs computed-keys-go-into-a-private-row: hasFuncGroupKey(dp.stream) ==> fresh($arg1)
 
 // ---------------------------------------------------------------- C14: partition keys are typed and use full precision
 func typeKey
-  props C14
+  props C14 C12
   ensures null: v == nil ==> result == "nil|"
   ensures strings-verbatim: hasType(v, string) ==> result == "string|" + strval(v)
   ensures ints: hasType(v, int) ==> result == "int|" + strconv.Itoa(intval(v))
@@ -450,7 +450,7 @@ func typeKey
 /*@
 // ---------------------------------------------------------------- C01/C08: per-batch aggregation and window_id stamping
 func stampWindowID
-  props C01 C08 C02
+  props C01 C08 C02 C03 C05 C07 C09 C10 C12 C15 C17 C20
   option safety
   requires forall(i, 0, len(results), results[i] != nil)
   modifies allmaps
@@ -460,7 +460,7 @@ func stampWindowID
   loop 1 invariant forall(j, 0, $i, $s[j] != nil ==> dom($s[j], "window_id") && $s[j]["window_id"] == boxof(id, string)) && $s == results
 
 func (*DataProcessor).processWindowBatch
-  props C01 C08 C03 C09
+  props C01 C08 C03 C09 C05 C07 C10 C12 C15 C17 C20
   modifies *
   count adds := Add
   count resets := Reset
@@ -480,7 +480,7 @@ func (*DataProcessor).processWindowBatch
 pred entryOf(fe, k) := unbox(fe.partitions[k].Value, *partitionEntry)
 
 func (*analyticFieldEngine).getStateLocked
-  props C14
+  props C14 C12
   option callbacks_pure
   requires fe != nil
   modifies fe.noPart, mapof(fe.partitions), mapof(fe.lastResults), heap(list.Element.Value)
@@ -493,46 +493,46 @@ func (*analyticFieldEngine).getStateLocked
 
 /*@
 extern (*analyticFieldEngine).partitionKey
-  props C14
+  props C14 C12
   option pure
 
 pure github.com/rulego/streamsql/types.AnalyticSelfTokenN
 
 extern lookupRowField
-  props C14
+  props C14 C04 C05 C06 C07 C16 C20
   option pure
 
 func resolvePartitionField
-  props C14
+  props C14 C12
   ensures the-exact-column-wins: dom(row, key) ==> result == row[key]
   ensures then-the-nested-path: !dom(row, key) && second(fieldpath.GetNestedField(row, key)) ==> result == fieldpath.GetNestedField(row, key)
   ensures then-the-suffix-fallback: !dom(row, key) && !second(fieldpath.GetNestedField(row, key)) && second(lookupRowField(row, key)) ==> result == lookupRowField(row, key)
   ensures otherwise-null: !dom(row, key) && !second(fieldpath.GetNestedField(row, key)) && !second(lookupRowField(row, key)) ==> result == nil
 
 extern hasStarArg
-  props C14
+  props C14 C12
   option pure
 
 extern literalValue
-  props C14
+  props C14 C12
   option pure
 
 extern (*analyticFieldEngine).applyCall
-  props C14
+  props C14 C12
   modifies *
   ensures the-engines-own-bookkeeping-is-not-touched: fe.lastResults == old(fe.lastResults) && mapUnchanged(fe.lastResults) && fe.whenCond == old(fe.whenCond) && fe.af == old(fe.af)
 
 extern (*analyticFieldEngine).evaluateMultiColumn
-  props C14
+  props C14 C12
   modifies *
 
 extern (*analyticFieldEngine).evalWrapper
-  props C14
+  props C14 C12
   modifies *
   ensures the-engines-own-bookkeeping-is-not-touched: fe.lastResults == old(fe.lastResults) && mapUnchanged(fe.lastResults) && fe.whenCond == old(fe.whenCond) && fe.af == old(fe.af)
 
 func (*analyticFieldEngine).evaluate
-  props C14
+  props C14 C12
   requires fe != nil && fe.lastResults != nil
   modifies *
   observe pk := partitionKey
